@@ -530,7 +530,8 @@ expandfunc(struct macro *m)
 	}
 	if (i + 1 < m->nparam)
 		error(&t->loc, "not enough arguments for macro '%s'", m->name);
-	if (t->kind != TRPAREN)
+	/* the loop ends on its own only after a ',' that closes the last parameter */
+	if (t->kind != TRPAREN || m->nparam > 0 && i == m->nparam)
 		error(&t->loc, "too many arguments for macro '%s'", m->name);
 	for (i = 0, t = tok.val; i < m->nparam; ++i) {
 		arg[i].token = t;
